@@ -457,11 +457,12 @@ def finish(mod, run, wall):
         "known_seen=%d new=%d entered=%d wall=%.1fs"
         % (prop, run.tier, run.seed, run.evaluations, len(run.distinct), len(known_seen), len(new), len(run.entered), wall)
     )
+    # inconclusive reasons are always shown (a crashed workload must not hide behind a violation)
+    for r in run.inconclusive_reasons:
+        print("INCONCLUSIVE property=%s reason=%s" % (prop, r))
     if new:
         return 1
     if run.inconclusive_reasons:
-        for r in run.inconclusive_reasons:
-            print("INCONCLUSIVE property=%s reason=%s" % (prop, r))
         return 2
     return 0
 
